@@ -48,7 +48,8 @@ def run(unit, em):
         selfm = {}
         for fn in ctors:
             for i in fn.d.get('inits') or []:
-                if i.get('n') and i.get('written') and is_node(i.get('init')):
+                # written initialisers and in-class default member initialisers (exported below the CXXDefaultInitExpr) alike
+                if i.get('n') and is_node(i.get('init')):
                     why = self_refs(unit, fn, i['init'], i['n'])
                     if why:
                         selfm.setdefault(i['n'], (why, fn))
@@ -80,7 +81,7 @@ def run(unit, em):
                     if g is None:
                         em.unknown(where, name, 'user-provided, body not exported in this unit')
                         continue
-                    ini = next((i for i in g.d.get('inits') or [] if i.get('n') == M and i.get('written') and is_node(i.get('init'))), None)
+                    ini = next((i for i in g.d.get('inits') or [] if i.get('n') == M and is_node(i.get('init'))), None)
                     if ini is not None and self_refs(unit, g, ini['init'], M):
                         em.ok(g, name, 're-bound to the new object\'s own members')
                     else:
